@@ -114,6 +114,14 @@ static inline std::string compare(const N& n, const ref::Value& r, const std::st
         if (n.AtPointer(i) != &*it) return bad("AtPointer(idx)");
       }
       if (!r.a.empty() && &n.Back() != &n[r.a.size() - 1]) return bad("Back()");
+      {
+        // pointer tokens of the wrong kind / out of range never resolve on an array
+        using namespace sonic_json;
+        if (n.AtPointer(JsonPointer({JsonPointerNode(-1)})) != nullptr) return bad("AtPointer(JsonPointer{-1}) on an array resolves");
+        if (n.AtPointer(JsonPointer({JsonPointerNode("0")})) != nullptr) return bad("AtPointer(JsonPointer{\"0\"}) (a string token) on an array resolves");
+        if (n.AtPointer(JsonPointer({JsonPointerNode("")})) != nullptr) return bad("AtPointer(JsonPointer{\"\"}) on an array resolves");
+        if (!r.a.empty() && n.AtPointer(JsonPointer({JsonPointerNode((int)r.a.size() - 1)})) != &n[r.a.size() - 1]) return bad("AtPointer(JsonPointer{size-1})");
+      }
       if (n.AtPointer(r.a.size()) != nullptr) return bad("AtPointer(size) not null");
       return "";
     }
@@ -170,6 +178,18 @@ static inline std::string compare(const N& n, const ref::Value& r, const std::st
         if (!n.HasMember(StringView(key.data(), key.size()))) return bad("HasMember");
         if (&n[StringView(key.data(), key.size())] != &exp->value) return bad("operator[](key)");
         if (n.AtPointer(StringView(key.data(), key.size())) != &exp->value) return bad("AtPointer(key)");
+      }
+      {
+        // index tokens (also negative ones) never resolve on an object, whatever its member names are
+        using namespace sonic_json;
+        for (int ix : {-1, 0, 1, -7})
+          if (n.AtPointer(JsonPointer({JsonPointerNode(ix)})) != nullptr) return bad("AtPointer(JsonPointer{index " + std::to_string(ix) + "}) on an object resolves");
+        if (!r.o.empty()) {
+          size_t first = 0;
+          while (r.o[first].first != r.o[0].first) first++;
+          const std::string& k0 = r.o[0].first;
+          if (!(g_skip_lookups_on_dup_keys && dups) && n.AtPointer(JsonPointer({JsonPointerNode(k0)})) != &(n.MemberBegin() + first)->value) return bad("AtPointer(JsonPointer{first key})");
+        }
       }
       {
         std::string miss = "\x01missing\x02";
